@@ -249,8 +249,10 @@ pub fn gen(jura_kind: bool, seed: u64, cases: usize, flavour: &str, path: &str) 
         let o1 = g.rng.below(4) as usize;
         // the clock in epoch milliseconds, a quarter of a second apart
         let big_dates = stress != 0 && g.rng.chance(1, 3);
+        // or in epoch nanoseconds with a sub-second part: integers past 2^53, which a binary64 cannot hold
+        let nano = big_dates && g.rng.chance(1, 2);
         if big_dates {
-            g.stats.bump("stress_epoch_millisecond_dates");
+            g.stats.bump(if nano { "stress_epoch_nanosecond_dates_past_2_53" } else { "stress_epoch_millisecond_dates" });
         }
         let names: Vec<&str> = if stress == 3 {
             if two { vec![odd[o1], odd[(o1 + 1) % 4]] } else { vec![odd[o1]] }
@@ -266,7 +268,7 @@ pub fn gen(jura_kind: bool, seed: u64, cases: usize, flavour: &str, path: &str) 
             let nd = if !flavour.contains("http") && g.rng.chance(1, 20) { 0 } else if stress == 2 { 60 + g.rng.below(240) } else if long { 1 + g.rng.below(40) } else { 1 + g.rng.below(8) };
             lens.insert(*name, nd);
             g.line(&format!("DATA {} 2 {}", name, syms.join(" ")));
-            let mut ds: Vec<i64> = (0..nd as i64).map(|d| if big_dates { 1_700_000_000_000 + 250 * d + if ni == 1 { 125 } else { 0 } } else { 100 + 3 * d + if ni == 1 { 1 } else { 0 } }).collect();
+            let mut ds: Vec<i64> = (0..nd as i64).map(|d| if big_dates && nano { 1_659_484_800_123_456_789 + 1_000_000_007 * d + if ni == 1 { 500_000_003 } else { 0 } } else if big_dates { 1_700_000_000_000 + 250 * d + if ni == 1 { 125 } else { 0 } } else { 100 + 3 * d + if ni == 1 { 1 } else { 0 } }).collect();
             if !ds.is_empty() && g.rng.chance(1, 12) {
                 g.stats.bump("dataset_shuffled_or_repeated_dates");
                 let n = ds.len();
